@@ -338,6 +338,34 @@ def round_case(st, opts):
         if isinstance(Y, tt.TT) and len(Y.R) == len(Rin):
             if any(int(a) > int(b) for a, b in zip(Y.R, Rin)):
                 problems.append(P("rank-monotone", "a rank grew: %s -> %s" % (Rin, [int(r) for r in Y.R])))
+    # product structure: two blocks with the model's spectrum joined by a bond of rank one (Kronecker product), both
+    # blocks stored with inflated ranks - the bonds on either side of the rank-one bond are truncated like any other
+    if 2 <= d and 2 * d <= 6:
+        P = mkP("product")
+        stats["calls"] = stats.get("calls", 0) + 1
+        Xa = build_tt_with_spectrum(tt, sig, d, n, infl, gen, torch.float64, "tt", 1.0)
+        Xb = build_tt_with_spectrum(tt, sig, d, n, max(infl, 1), gen, torch.float64, "tt", 1.0)
+        X = tt.TT([c.clone() for c in Xa.cores] + [c.clone() for c in Xb.cores])
+        dense = project.dense(X.cores)
+        caps2 = caps + [BIG] + caps
+        rm2 = None if all(c >= BIG for c in caps) else (int(caps[0]) if len(set(caps)) == 1 else [1] + [int(c) if c < BIG else 10 ** 6 for c in caps2] + [1])
+        if isinstance(rm2, int):
+            caps2 = [rm2] * (2 * d - 1)
+        Rin = [int(r) for r in X.R]
+        snap = algrun.snapshot([X])
+        try:
+            Y = X.round(eps) if rm2 is None else X.round(eps, rm2)
+            for nn, why in algrun.changed([X], snap):
+                problems.append(P("operand-changed", "round changed its operand: %s" % "; ".join(why)))
+            # the per-bond allowance of the longer train is smaller than the model's: a cap that the model did not need may bind
+            # here; "when rmax is binding only the rank bounds are promised", so a result rank sitting at its cap counts as capped
+            capped2 = capped or (isinstance(Y, tt.TT) and len(Y.R) == 2 * d + 1 and any(int(Y.R[b + 1]) >= caps2[b] for b in range(2 * d - 1)))
+            problems += check_result(P, tt, Y, "tt", [n] * (2 * d), [], caps2, [rho_in] * (d - 1) + [1] + [rho_in] * (d - 1), eps, capped2, dense,
+                                     torch.float64, "product")
+            if isinstance(Y, tt.TT) and len(Y.R) == len(Rin) and any(int(a) > int(b) for a, b in zip(Y.R, Rin)):
+                problems.append(P("rank-monotone", "a rank grew: %s -> %s" % (Rin, [int(r) for r in Y.R])))
+        except Exception as ex:  # noqa
+            problems.append(P("exception", "raised %s: %s" % (type(ex).__name__, str(ex)[:200])))
     stats["nontrivial"] = 1 if (d >= 3 and rho_in >= 2 and p > 0) else 0
     sample = {"d": d, "spectrum_energies": spec0, "inflate": infl, "eps2": [p, q], "caps": caps, "model_ranks_processing_order": st["ranks"]}
     return {"problems": problems, "stats": stats, "sample": sample, "artifacts": rtraces}
